@@ -6,11 +6,13 @@ export CARGO_NET_OFFLINE=true
 T="${VERIF_TARGET_DIR:-$PWD/.target}"
 python3 lib/gen_manifest.py >/dev/null
 # regenerate tables from /repo (translators are idempotent)
-for t in translators/*.py; do [ -f "$t" ] && python3 "$t"; done
-# Lean: everything registered in the lakefile + all property theorem modules
-( cd lean && lake build DicomModel.AuditTool $(ls DicomModel/Props/*.lean 2>/dev/null | sed 's#/#.#g; s#\.lean$##') \
-    $(ls Driver/C*.lean 2>/dev/null | sed 's#Driver/C#drv_c#; s#\.lean$##') )
+for t in translators/*.py; do if [ -f "$t" ]; then python3 "$t" || echo "setup: translator $t failed"; fi; done
+# Lean: audit tool (required), then every property's theorems and driver (a module that fails here
+# is reported again, precisely, by that property's own check; setup itself goes on)
+( cd lean && lake build DicomModel.AuditTool )
+( cd lean && for m in $(ls DicomModel/Props/*.lean 2>/dev/null | sed 's#/#.#g; s#\.lean$##'); do lake build "$m" >/dev/null 2>&1 || echo "setup: $m does not build"; done
+  for d in $(ls Driver/C*.lean 2>/dev/null | sed 's#Driver/C#drv_c#; s#\.lean$##'); do lake build "$d" >/dev/null 2>&1 || echo "setup: $d does not build"; done )
 # Rust harness (path dependencies on /repo; builds the crates of /repo's working tree)
-( cd harness && CARGO_TARGET_DIR="$T" cargo build --release --offline --bins )
-python3 lib/prebuild_tools.py
+( cd harness && CARGO_TARGET_DIR="$T" cargo build --release --offline --bins --keep-going 2>&1 | tail -3 ) || echo "setup: some harness runners do not build"
+python3 lib/prebuild_tools.py || echo 'setup: a tool binary does not build'
 echo setup-ok
